@@ -63,6 +63,8 @@ def plan(tier, seed):
             exprs.append((a.capitalize() + " 8 Uhr", "2018-03-07T12:43:00"))
     # clock notations added to the library after the grammar was written
     exprs += [(t, "2018-03-07T12:43:00") for t in ("8 Uhr 30", "18 Uhr 45", "um 8 Uhr 05", "0 uhr nachts", "day after tomorrow", "monatsende")]
+    # expressions with very many equally long tokenisations (several numbers, each of which is a day, a month, an hour and a year)
+    exprs += [(t, "2018-03-07T12:43:00") for t in ("on Friday 23/2/2018", "august 5 at 8am", "Jun 21 at about 8am", "24/12 10am - 11am", "1/2/2018 at 3-4", "am 8.5. um 9-10", "09-10-16 8am")]
     if tier == "thorough":
         exprs += [(s, "2020-02-29T23:59:30") for _, s in grammar.sentences()] + [(t, "2019-12-31T23:59:30") for t, ts in alphabet.corpus_sentences()]
     exprs = list(dict.fromkeys(exprs))
